@@ -364,6 +364,72 @@ func (g *commonGen) template(w *World, name string, b int) []Step {
 			}
 		}
 		return out
+	case "idle_probe":
+		// be logged in, stay idle around the threshold, look at what downstream sees
+		out := []Step{}
+		if sessAcct(w, b) < 0 {
+			out = append(out, Step{Kind: "login", B: b, A: a, Sec: pw(a)})
+		}
+		if g.r.Bool() {
+			out = append(out, Step{Kind: "app_session_put", B: b, Str: map[string]string{"key": []string{"app_theme", "app_cart", "app_other"}[g.r.Intn(3)], "val": "kept"}})
+		}
+		for i := 0; i < 1+g.r.Intn(3); i++ {
+			gap := durationsAround(g.r, c.ExpireAfter)
+			if gap < 0 {
+				gap = 0
+			}
+			if c.WholeSecondClock {
+				gap = gap.Round(time.Second)
+			}
+			out = append(out, Step{Kind: "probe", B: b, Gap: gap, Str: map[string]string{"path": "/probe/open"}})
+		}
+		return out
+	case "logout_from_state":
+		// reach some session state, log out, then knock on a protected door
+		var out []Step
+		switch g.r.Intn(8) {
+		case 0:
+		case 1:
+			out = append(out, Step{Kind: "login", B: b, A: a, Sec: pw(a), RM: c.hasModule("remember")})
+		case 2:
+			if c.hasModule("remember") && !c.hasSetup("expire") {
+				out = append(out, Step{Kind: "login", B: b, A: a, Sec: pw(a), RM: true}, Step{Kind: "drop_session", B: b}, g.fill(w, "probe", b))
+			}
+		case 3:
+			if c.hasModule("oauth2") {
+				out = append(out, g.fill(w, "oauth2_start", b))
+			}
+		case 4:
+			out = append(out, Step{Kind: "login", B: b, A: a, Sec: pw(a)})
+			if c.hasSetup("totp") {
+				out = append(out, Step{Kind: "totp_setup", B: b, A: a})
+			}
+			if c.hasSetup("sms") {
+				out = append(out, Step{Kind: "sms_setup", B: b, A: a, Str: map[string]string{"number": acctPhone(a)}})
+			}
+		case 5:
+			out = append(out, Step{Kind: "login", B: b, A: a, Sec: pw(a)})
+			if c.EmailAuth2FA && c.hasSetup("totp") {
+				out = append(out, Step{Kind: "everify_start", B: b, A: a, Str: map[string]string{"kind": "totp"}})
+			}
+		case 6:
+			// a 2FA account: stop after the password step
+			for i := range w.Accts {
+				if w.KB.TOTPSecret[i] != "" || w.KB.SMSNumber[i] != "" {
+					a = i
+				}
+			}
+			out = append(out, Step{Kind: "login", B: b, A: a, Sec: pw(a)})
+		case 7:
+			out = append(out, Step{Kind: "login", B: b, A: a, Sec: pw(a)}, Step{Kind: "app_session_put", B: b, Str: map[string]string{"key": "app_theme", "val": "dark"}},
+				Step{Kind: "app_session_put", B: b, Str: map[string]string{"key": "app_other", "val": "x"}})
+		}
+		if g.r.Chance(1, 5) {
+			m := []string{"GET", "POST", "DELETE"}[g.r.Intn(3)]
+			out = append(out, Step{Kind: "logout", B: b, Str: map[string]string{"method": m}})
+		}
+		out = append(out, Step{Kind: "logout", B: b}, Step{Kind: "probe", B: b, Str: map[string]string{"path": "/probe/mw/" + []string{"0", "1"}[g.r.Intn(2)] + "/0/0/after"}})
+		return out
 	case "twofa_login":
 		// primary credential then the right second factor
 		out := []Step{{Kind: "login", B: b, A: a, Sec: pw(a)}}
